@@ -142,7 +142,7 @@ EncApp(c) == Packet(c.padding, c.subtype, PT_APP,
 EncUnknown(c) == Packet(c.padding, c.count, c.type, c.data)
 
 \* a third-party packet defined with the public helpers: header, SSRC, payload, trailer
-EncCustom(c) == Packet(c.padding, c.count, c.pt, BE32(c.ssrc) \o c.payload)
+EncCustom(c) == Packet(c.padding, c.count, c.pt, (IF c.has_ssrc THEN BE32(c.ssrc) ELSE <<>>) \o c.payload)
 
 -----------------------------------------------------------------------------
 (* feedback control information *)
